@@ -594,13 +594,26 @@ V("alldiff-ranks-short", "break", ["C16"], P + "alldifferent_propagator.py", "  
 V("alldiff-neutral-temp-size", "neutral", ["C16"], P + "alldifferent_propagator.py", "    bounds_nb = 2 * n + 2\n", "    extra = 2\n    bounds_nb = n + n + extra\n", "size computed differently")
 V("gcc-neutral-bigger", "neutral", ["C16"], P + "gcc_propagator.py", "    bounds_nb = 2 * n + 2\n", "    bounds_nb = 2 * n + 4\n", "scratch arrays larger than needed")
 
-V("gcc-no-zero-capacity-precondition", "break", ["C04"], P + "gcc_propagator.py",
+V("gcc-no-zero-capacity-precondition", "neutral", ["C04"], P + "gcc_propagator.py",
   """        domains[i, MIN] = skip_non_null_elements_right(u, domains[i, MIN])
         domains[i, MAX] = skip_non_null_elements_left(u, domains[i, MAX])
-""", "", "bounds are no longer moved off zero-capacity values before the Hall-interval filtering (gcc hangs)", "compute_domains_gcc")
-V("gcc-precondition-on-lower-bounds", "break", ["C04"], P + "gcc_propagator.py",
-  "        domains[i, MIN] = skip_non_null_elements_right(u, domains[i, MIN])", "        domains[i, MIN] = skip_non_null_elements_right(l, domains[i, MIN])",
-  "MIN moved past values whose LOWER bound is zero instead of those whose capacity is zero", "compute_domains_gcc")
+""", "", "bounds are no longer moved off zero-capacity values before the Hall-interval filtering: weaker pruning only since a67ad7b (0 hangs in 90000 capped runs)")
+V("gcc-prepass-no-failure-exit", "break", ["C04"], P + "gcc_propagator.py",
+  """        if domains[i, MIN] > domains[i, MAX]:
+            return PROP_INCONSISTENCY
+    min_sorted_vars""", """    min_sorted_vars""", "bounds moved off zero-capacity values but crossed bounds are ranked (1200 hangs in 15000 capped runs)", "compute_domains_gcc")
+V("gcc-lower-max-zero-intervals-not-skipped", "break", ["C04"], P + "gcc_propagator.py",
+  "        t[i] = i + 1 if d[i] == 0 else i - 1\n", "        t[i] = i - 1\n", "upper-capacity pass: intervals without capacity start as ordinary intervals (never merged; gcc hangs)", "filter_lower_max")
+V("gcc-upper-max-zero-intervals-not-skipped", "break", ["C04"], P + "gcc_propagator.py",
+  "        t[i] = i - 1 if d[i] == 0 else i + 1\n", "        t[i] = i + 1\n", "mirror pass: intervals without capacity start as ordinary intervals", "filter_upper_max")
+V("gcc-lower-min-zero-intervals-not-skipped", "break", ["C04"], P + "gcc_propagator.py", None, None, "lower-capacity pass: the pointer initialisation no longer tests the capacity", "filter_lower_min",
+  within="def filter_lower_min", edits=[{"old": "        if c[i] == 0:\n            tl[i] = w\n        else:\n            tl[w] = i\n            w = i\n", "new": "        tl[w] = i\n        w = i\n"},
+                                        {"old": "        if c[i] == 0:  # if the capacity between both bounds is zero, we have an unstable set between these two bounds\n            sets[i - 1] = w\n        else:\n            sets[w] = i - 1\n            w = i - 1\n", "new": "        sets[w] = i - 1\n        w = i - 1\n"}])
+V("gcc-zero-intervals-neutral-if-form", "neutral", ["C04", "C16"], P + "gcc_propagator.py",
+  "        t[i] = i + 1 if d[i] == 0 else i - 1\n", "        if d[i] < 1:\n            t[i] = i + 1\n        else:\n            t[i] = i - 1\n", "same initialisation as an if statement with `< 1`")
+V("gcc-zero-intervals-neutral-local", "neutral", ["C04", "C16"], P + "gcc_propagator.py",
+  "        d[i] = get_sum(u, bounds[i], bounds[i + 1] - 1)\n        # an interval without capacity is full from the start: it is skipped like an interval that has been filled\n        t[i] = i - 1 if d[i] == 0 else i + 1\n",
+  "        cap = get_sum(u, bounds[i], bounds[i + 1] - 1)\n        d[i] = cap\n        t[i] = i + 1 if cap != 0 else i - 1\n", "capacity held in a local, test inverted")
 V("gcc-precondition-neutral-reorder", "neutral", ["C04", "C16"], P + "gcc_propagator.py",
   """        domains[i, MIN] = skip_non_null_elements_right(u, domains[i, MIN])
         domains[i, MAX] = skip_non_null_elements_left(u, domains[i, MAX])
